@@ -33,6 +33,9 @@ type SQLPlan struct {
 	n    int
 	Log  []string
 	Hook func(op string, idx int, phase string) error
+	// AfterRowsClose, if set, runs after a result set has been closed (statement reset, no lock held any
+	// more) and before the caller gets its row: a pause point, not a counted operation.
+	AfterRowsClose func()
 }
 
 func (p *SQLPlan) step(op string) (int, func(string) error) {
@@ -171,7 +174,16 @@ type vrows struct {
 }
 
 func (r *vrows) Columns() []string { return r.inner.Columns() }
-func (r *vrows) Close() error      { return r.inner.Close() }
+func (r *vrows) Close() error {
+	err := r.inner.Close()
+	r.plan.mu.Lock()
+	f := r.plan.AfterRowsClose
+	r.plan.mu.Unlock()
+	if f != nil {
+		f()
+	}
+	return err
+}
 func (r *vrows) Next(dest []driver.Value) error {
 	_, h := r.plan.step(SQLNext)
 	if err := h("before"); err != nil {
